@@ -44,12 +44,16 @@ QUICK = [
     ("TE", dict(T=2, dep=("d", "h"))),
     ("TF", dict(T=3)),
     ("TG", dict(T=2)),
+    ("TG", dict(T=2, up=True)),  # two continuous states, next states above the upper grid bounds
     ("TH", dict(T=3)),
     ("TJ", dict(T=2)),
     ("TK", dict(T=2)),
     ("TL", dict(T=2)),
+    ("TM", dict(T=2)),  # restricted + unrestricted discrete state + continuous state
+    ("TN", dict(T=2)),  # two restricted states with an excluded combination, two unrestricted discrete states
     ("TP", dict(T=2)),  # the admitted restricted-state set changes between periods
     ("TP", dict(T=3)),
+    ("TQ", dict(T=2)),
 ]
 THOROUGH = QUICK + [
     ("TA", dict(T=4)),
